@@ -72,6 +72,11 @@ class CheckContext:
         self.rules[rid] = text
 
     def ok(self, rule, construct, detail="", loc="", nontrivial=True, derivation=None):
+        k = (rule, construct)
+        seen = self.__dict__.setdefault("_ok_seen", set())
+        if k in seen:
+            return
+        seen.add(k)
         self.obligations.append(Obligation(rule, construct, OK, detail, loc, nontrivial, derivation))
 
     def violated(self, rule, construct, detail="", loc="", derivation=None):
